@@ -6,7 +6,7 @@ ids="$@"
 if [ -z "$ids" ]; then ids=$(python3 -c "import json;print(' '.join(c['property_id'] for c in json.load(open('MANIFEST.json'))['checks']))"); fi
 for id in $ids; do
   s=$(date +%s)
-  ./bin/gosym check $id --tier $tier > work/run_${tier}_$id.log 2>&1; rc=$?
+  timeout ${RUN_TIMEOUT:-7200} ./bin/gosym check $id --tier $tier > work/run_${tier}_$id.log 2>&1; rc=$?
   e=$(date +%s)
   echo "$id tier=$tier exit=$rc wall=$((e-s))s $(grep -a -c '^KNOWN-FINDING' work/run_${tier}_$id.log) known $(grep -a '^INCONCLUSIVE\|^UNCONFIRMED' work/run_${tier}_$id.log | head -1 | cut -c1-120)"
 done
